@@ -636,6 +636,12 @@ func mutate(r *hx.Rand, base, donor []byte, ps int) Mut {
 	}
 	ref := refParse(base)
 	nv := ref.NValid
+	if int(ref.PS) != ps {
+		nv = 0
+	}
+	if nv > nf {
+		nv = nf
+	}
 	pick := func() int { // a frame index, biased to the valid prefix
 		if nv > 0 && r.Chance(75) {
 			return r.Intn(nv)
@@ -1279,7 +1285,7 @@ func main() {
 	}
 
 	rnd := hx.NewRand(o.Seed)
-	nSets, nMut, sqliteEvery := 2, 260, 2
+	nSets, nMut, sqliteEvery := 2, 180, 2
 	if o.Tier == "thorough" {
 		nSets, nMut, sqliteEvery = 6, 1200, 1
 	}
